@@ -84,7 +84,10 @@ pub open spec fn opt_kid(h: Heap, n: int, o: Option<int>) -> bool {
 pub open spec fn opt_flagged(h: Heap, o: Option<int>) -> bool {
     match o { Some(c) => alive(h, c) && h.st[c].no_backtracking, None => true }
 }
-pub uninterp spec fn op_len(o: Operator) -> nat;
+pub open spec fn op_goals(o: Operator) -> Seq<Goal> {
+    match o { Operator::And(g) => g@, Operator::Or(g) => g@, Operator::Time(g) => g@, Operator::Not(g) => g@ }
+}
+pub open spec fn op_len(o: Operator) -> nat { op_goals(o).len() }
 pub open spec fn op_tail_empty(o: Option<Operator>) -> bool {
     match o { Some(t) => op_len(t) == 0, None => true }
 }
@@ -636,8 +639,14 @@ pub proof fn lemma_after_out(h0: Heap, h1: Heap, h2: Heap, me: int)
 }
 
 // ---- make_solution_node ------------------------------------------------------------------------------------------------
-pub uninterp spec fn op_head(o: Operator) -> Goal;
-pub uninterp spec fn op_tail(o: Operator) -> Operator;
+pub open spec fn op_head(o: Operator) -> Goal { op_goals(o)[0] }
+// the operator of the remaining operands: same kind, operands 1..
+pub open spec fn is_tail_of(t: Operator, o: Operator) -> bool {
+    &&& op_goals(t) =~= op_goals(o).subrange(1, op_goals(o).len() as int)
+    &&& ((o is And && t is And) || (o is Or && t is Or))
+}
+pub assume_specification[ <Goal as Clone>::clone ](g: &Goal) -> (r: Goal)
+    ensures r == *g;
 pub open spec fn op_operand0(o: Operator) -> Goal {
     match o { Operator::And(g) => g@[0], Operator::Or(g) => g@[0], Operator::Time(g) => g@[0], Operator::Not(g) => g@[0] }
 }
